@@ -6,7 +6,7 @@
 From Coq Require Extraction ExtrOcamlBasic.
 From RT Require Import Model.Segments Model.Bytes Model.Records Model.Heap Model.Merge Model.Overlay
   Model.Refname Model.Result Model.Varint Model.KeyCodec Model.RecCodec Model.Block Model.Crc32
-  Model.Writer Model.Reader.
+  Model.Writer Model.Reader Model.Compact Model.StackSeq.
 Extraction Language OCaml.
 Separate Extraction
   Segments.suggest Segments.log2_go Segments.log2 Segments.sizes_to_segments
@@ -23,4 +23,8 @@ Separate Extraction
   Block.bw_add Block.bw_finish Block.br_init Block.bi_next Block.br_seek
   Crc32.crc32
   Writer.write_table Writer.norm_log Writer.w_new Writer.w_add_ref Writer.w_add_log Writer.w_close Writer.set_limits
+  Compact.merged_refs Compact.merged_logs Compact.merged_refs_for Compact.new_merged_ok
+  Compact.compact_range Compact.compact_table Compact.stack_refs Compact.stack_logs Compact.keep_log
+  StackSeq.stack_add StackSeq.stack_compact StackSeq.stack_compact_all StackSeq.stack_auto StackSeq.decode_table
+  Overlay.merge2 Overlay.live
   Reader.rd_open Reader.scan_refs Reader.scan_logs Reader.seek_ref Reader.seek_log Reader.refs_for.
